@@ -351,9 +351,109 @@ func witnessTrail() (bool, string) {
 		fmt.Sprintf("extents %s, 1 KiB blocks, Write of 1024 bytes at offset 512 returns (%d, %v) although every byte is on the device (%v)", extStr(es), wn, werr, landed)
 }
 
+// deallocTrigger is the trigger predicate of finding ext4-dealloc-block-group: the first data block is 0 (2 or
+// 4 KiB blocks) and an extent contains the first block of a group other than the first.
+func deallocTrigger(v *x.View, ex []ext4.V04Extent) bool {
+	if v.FirstDataBlock != 0 {
+		return false
+	}
+	for _, e := range ex {
+		for b := e.Start; b < e.Start+uint64(e.Count); b++ {
+			if b > 0 && b%uint64(v.BPG) == 0 {
+				return true
+			}
+		}
+	}
+	return false
+}
+
+// witnessDealloc: on a volume with 2 KiB blocks and groups of 2048 blocks, an extent that contains the first
+// block of a group is allocated and released again: the counters no longer match the bitmaps.
+func witnessDealloc() (bool, string) {
+	cfg := x.Config{Name: "witness", Size: 16 * MiB, SPB: 4, BPG: 2048, Resize: x.B(false), Journal: x.B(false)}
+	d, fs, err, _ := x.Create(cfg)
+	if err != nil {
+		return false, "cannot create volume: " + err.Error()
+	}
+	v, err := x.ParseView(d, cfg.Start)
+	if err != nil {
+		return false, err.Error()
+	}
+	for i := 0; i < 64; i++ {
+		got, aerr := fs.V04AllocateExtents(300*uint64(v.BlockSize), nil, false)
+		if aerr != nil {
+			break
+		}
+		if !deallocTrigger(v, got) {
+			continue
+		}
+		derr := fs.V04DeallocateExtents(got)
+		v2, err := x.ParseView(d, cfg.Start)
+		if err != nil {
+			return false, err.Error()
+		}
+		ok, m := v2.Acct().Consistent()
+		if derr != nil {
+			return strings.Contains(derr.Error(), "could not clear block bitmap"), fmt.Sprintf("2 KiB blocks, 2048 blocks per group: deallocateExtents(%s) fails: %v", extStr(got), derr)
+		}
+		if !ok {
+			return true, fmt.Sprintf("2 KiB blocks, 2048 blocks per group: allocateExtents returns %s (contains the first block of a group); after deallocateExtents of it: %s", extStr(got), m)
+		}
+		return false, "releasing an extent that contains the first block of a group keeps the counters right"
+	}
+	return false, "no extent containing the first block of a group was handed out"
+}
+
+// asFoundDealloc: deallocateExtents takes the group of a block as (block-1)/blocksPerGroup (set by the witness)
+var asFoundDealloc bool
+
+// witnessRmStale: five files with 200-byte names in the root of a 1 KiB-block volume need two directory blocks;
+// after Remove of the first the rest fits into one block, and the second block keeps its old entry.
+func witnessRmStale(scratch string, fsck bool) (bool, string) {
+	cfg, d, fs, err := smallVolume()
+	if err != nil {
+		return false, "cannot create volume: " + err.Error()
+	}
+	r := newRef()
+	rn := &runner{fs: fs, ref: r, bs: 1024}
+	var ops []op
+	for i := 1; i <= 5; i++ {
+		ops = append(ops, op{kind: "create", path: fmt.Sprintf("f%d_%s", i, strings.Repeat("n", 197))})
+	}
+	ops = append(ops, op{kind: "remove", path: ops[0].path})
+	for _, o := range ops {
+		if out := rn.exec(o); out.refused != nil || out.panicked != "" || out.problem != "" {
+			return false, fmt.Sprintf("%s: %v %s %s", o, out.refused, out.panicked, out.problem)
+		}
+	}
+	what := "five files with 200-byte names in the root (two directory blocks), Remove of the first (the rest fits one block): "
+	if fsck {
+		ok, out := x.FsckDev(d, cfg.Start, cfg.Size, scratch, "w")
+		if ok {
+			return false, "clean after Remove from a two-block directory"
+		}
+		return staleDirFsck(out), what + x.FsckSummary(out)
+	}
+	if diff := observe(fs, r, false, nil); diff != "" {
+		return strings.Contains(diff, "listing of") || strings.Contains(diff, "ReadDir("), what + short(diff)
+	}
+	return false, "listing right after Remove from a two-block directory"
+}
+
 // asFoundTrail: File.Write leaves its loop only when one WriteAt took the whole buffer (set by the witness);
 // the Lean mirror runs with the same switch (cum=0) so that the correspondence is exact on either tree.
 var asFoundTrail bool
+
+// staleDirFsck: what e2fsck says about a directory block that still holds entries of names that were moved to an
+// earlier block (the inode is then entered twice) or removed (the entry names a released inode)
+func staleDirFsck(out string) bool {
+	return strings.Contains(out, "ref count is") || strings.Contains(out, "Duplicate") || strings.Contains(out, "duplicate") ||
+		strings.Contains(out, "deleted/unused inode") || strings.Contains(out, "Unattached") || strings.Contains(out, "unattached")
+}
+
+// asFoundStale: File.Write does not zero the gap in front of a write past EOF (set by the witness); the Lean
+// mirror zero-fills exactly when the tree under test does (zf).
+var asFoundStale bool
 
 func (e *engine) probeDefects() {
 	c := e.c
@@ -378,10 +478,14 @@ func (e *engine) probeDefects() {
 		c.Known(tagRmLink, e.def.rmLink, m)
 	}
 	e.def.stale, m = safely(witnessStale)
+	asFoundStale = e.def.stale
+	staleMsg := m
 	if !e.fsck {
 		c.Known(tagStale, e.def.stale, m)
 	}
 	wrapPresent = e.def.wrap
+	e.def.rmStale, m = safely(func() (bool, string) { return witnessRmStale(c.Scratch, e.fsck) })
+	c.Known(tagRmStale, e.def.rmStale, m)
 	e.def.trail, m = safely(witnessTrail)
 	asFoundTrail = e.def.trail
 	if !e.fsck {
@@ -397,6 +501,10 @@ func (e *engine) probeDefects() {
 		c.Known(tagLongLink, e.def.longLink, m)
 		e.def.staleLink, m = safely(func() (bool, string) { return witnessStaleLink(c.Scratch) })
 		c.Known(tagStaleLink, e.def.staleLink, m)
+		c.Known(tagStale, e.def.stale, staleMsg)
+		e.def.dealloc, m = safely(witnessDealloc)
+		asFoundDealloc = e.def.dealloc
+		c.Known(tagDealloc, e.def.dealloc, m)
 	} else {
 		c.Known(tagRemove, treeBroken, tm)
 	}
@@ -457,7 +565,9 @@ func allocCases(c *hx.Ctx) {
 		{Name: "1k-nojournal", Size: 16 * MiB, Journal: x.B(false)},
 		{Name: "4k-nojournal", Size: 16 * MiB, SPB: 8, Resize: x.B(false), Journal: x.B(false)},
 		{Name: "1k-3groups", Size: 20 * MiB, Journal: x.B(false)},
+		{Name: "2k-4groups", Size: 16 * MiB, SPB: 4, BPG: 2048, Resize: x.B(false), Journal: x.B(false)},
 	}
+	deallocReported := 0
 	for k := 0; k < n; k++ {
 		cfg := cfgs[k%len(cfgs)]
 		vid := fmt.Sprintf("alloc%d", k)
@@ -472,6 +582,32 @@ func allocCases(c *hx.Ctx) {
 			continue
 		}
 		var held [][]ext4.V04Extent
+		// every other volume starts fragmented: many small extents, half of them released again, so that the free
+		// list has many short runs (often of equal size) in front of the large one and a request larger than the
+		// largest run goes down the slow path with ties for the sort to break
+		if k%2 == 1 {
+			bsz := uint64(1024)
+			if v0, err := x.ParseView(d, cfg.Start); err == nil {
+				bsz = uint64(v0.BlockSize)
+			}
+			var small [][]ext4.V04Extent
+			for q := 0; q < 24+rr.Intn(30); q++ {
+				var got []ext4.V04Extent
+				var aerr error
+				if p := catch(func() { got, aerr = fs.V04AllocateExtents(uint64(1+rr.Intn(6))*bsz, nil, false) }); p != "" || aerr != nil {
+					break
+				}
+				small = append(small, got)
+			}
+			for q, ex := range small {
+				if q%2 == 0 || rr.Chance(20) {
+					catch(func() { _ = fs.V04DeallocateExtents(ex) })
+				} else {
+					held = append(held, ex)
+				}
+			}
+			c.Stat("alloc.fragmented-volume")
+		}
 		for j := 0; j < 40; j++ {
 			id := fmt.Sprintf("%s/a%d", vid, j)
 			v, err := x.ParseView(d, cfg.Start)
@@ -484,13 +620,59 @@ func allocCases(c *hx.Ctx) {
 			if len(held) > 0 && rr.Chance(30) {
 				i := rr.Intn(len(held))
 				var derr error
+				trig := asFoundDealloc && deallocTrigger(v, held[i])
+				preBbm := bitmapsHex(v, false)
+				var marked = 1
+				{
+					seen := map[uint64]bool{}
+					for _, e := range held[i] {
+						for b := e.Start; b < e.Start+uint64(e.Count); b++ {
+							rel := b - uint64(v.FirstDataBlock)
+							g, q := int(rel/uint64(v.BPG)), int(rel%uint64(v.BPG))
+							if b < uint64(v.FirstDataBlock) || g >= len(v.Groups) || seen[b] || v.BlockBitmapBytes(g)[q/8]&(1<<(q%8)) == 0 {
+								marked = 0
+							}
+							seen[b] = true
+						}
+					}
+				}
+				preGfb := u32sOf(v, func(g x.Group) uint32 { return g.FreeBlocks })
+				preSb := v.FreeBlocks
 				if p := catch(func() { derr = fs.V04DeallocateExtents(held[i]) }); p != "" || derr != nil {
+					if trig && p == "" && strings.Contains(derr.Error(), "could not clear block bitmap") {
+						c.Stat("alloc.dealloc-block-group-defect")
+						if deallocReported < 2 {
+							deallocReported++
+							c.Fail(id, tagDealloc, fmt.Sprintf("deallocateExtents(%v): %v", held[i], derr), cfg.String())
+						}
+						break
+					}
 					c.Fail(id, "-", fmt.Sprintf("deallocateExtents(%v): %v %s", held[i], derr, p), cfg.String())
 					break
 				}
+				released := held[i]
 				held = append(held[:i], held[i+1:]...)
 				v2, _ := x.ParseView(d, cfg.Start)
+				// model: the same blocks released from the same bitmaps (group arithmetic as the tree under test has it)
+				if c.Want(id) {
+					rs := make([]x.Run, len(released))
+					for q, e := range released {
+						rs[q] = x.Run{Pos: int(e.Start), Count: int(e.Count)}
+					}
+					c.Case(id+"/d", "ext4acc.dealloc", fmt.Sprintf("fdb=%d", v.FirstDataBlock), fmt.Sprintf("bpg=%d", v.BPG),
+						fmt.Sprintf("sbfb=%d", preSb), "gfb="+preGfb, "bbm="+preBbm, "blocks="+runsStr(rs), fmt.Sprintf("fixed=%d", b2i(!asFoundDealloc)))
+					c.Impl(id+"/d", fmt.Sprintf("marked=%d", marked), fmt.Sprintf("sbfb=%d", v2.FreeBlocks),
+						"gfb="+u32sOf(v2, func(g x.Group) uint32 { return g.FreeBlocks }), "bruns="+freeRunsAll(v2, false))
+				}
 				if ok, m := v2.Acct().Consistent(); !ok {
+					if trig {
+						c.Stat("alloc.dealloc-block-group-defect")
+						if deallocReported < 2 {
+							deallocReported++
+							c.Fail(id, tagDealloc, fmt.Sprintf("after deallocateExtents(%v): %s", released, m), cfg.String())
+						}
+						break
+					}
 					c.Fail(id, "-", "after deallocateExtents: "+m, cfg.String())
 					break
 				}
@@ -581,8 +763,27 @@ func allocCases(c *hx.Ctx) {
 				case len(got) == 1:
 					c.Impl(id, fmt.Sprintf("ext=%d+%d", got[0].Start, got[0].Count))
 				default:
-					c.Impl(id, "none") // slow path: several extents (checked against the allocation spec above)
+					c.Impl(id, "none") // the fast path found nothing: the slow path answered (predicted below)
 					c.Stat("alloc.slow-path")
+				}
+			}
+			// model: the whole policy (fast path, else slow path over the sorted pieces) is predicted exactly; the
+			// starts of the returned extents are passed along only to order pieces of EQUAL size (sort.Slice is
+			// not stable)
+			if c.Want(id) {
+				var hint []string
+				for _, e := range got {
+					hint = append(hint, fmt.Sprint(e.Start))
+				}
+				c.Case(id+"/p", "ext4alloc.policy", fmt.Sprintf("n=%d", nblk), fmt.Sprintf("fdb=%d", v.FirstDataBlock), fmt.Sprintf("bpg=%d", v.BPG),
+					fmt.Sprintf("sbfree=%d", v.FreeBlocks), "runs="+strings.Join(runs, "/"), "hint="+joinOr(hint))
+				if aerr != nil {
+					c.Impl(id+"/p", "none")
+				} else {
+					c.Impl(id+"/p", "ext="+extStr(got))
+					if len(got) > 1 {
+						c.Stat("alloc.policy-multi-extent")
+					}
 				}
 			}
 		}
@@ -716,12 +917,19 @@ func rwCases(c *hx.Ctx, r *hx.Rng) {
 			opn = "write"
 		}
 		c.Case(id, "ext4.rw", "op="+opn, fmt.Sprintf("bs=%d", bs), fmt.Sprintf("size=%d", size), fmt.Sprintf("off=%d", off),
-			fmt.Sprintf("n=%d", nbytes), "ext="+extStr(es), fmt.Sprintf("lt=%d", b2i(asFoundLt)), fmt.Sprintf("cum=%d", b2i(!asFoundTrail)))
+			fmt.Sprintf("n=%d", nbytes), "ext="+extStr(es), fmt.Sprintf("lt=%d", b2i(asFoundLt)), fmt.Sprintf("cum=%d", b2i(!asFoundTrail)), fmt.Sprintf("zf=%d", b2i(!asFoundStale)))
 		trig := skipTrigger(es, bs, off) && (write || off < size)
 		desc := fmt.Sprintf("op=%s bs=%d size=%d off=%d n=%d ext=%s", opn, bs, size, off, nbytes, extStr(es))
 		var ios []string
 		if write {
 			data := r.Bytes(nbytes)
+			// the device holds a pattern, so that a missing zero fill and a stray write are both visible
+			wfill := make([]byte, devSize)
+			for i := range wfill {
+				wfill[i] = byte(i*5+1) | 1
+			}
+			d.RawWrite(wfill, 0)
+			d.ResetLog()
 			var wn int
 			var werr error
 			p := catch(func() { wn, werr = fl.Write(data) })
@@ -774,22 +982,28 @@ func rwCases(c *hx.Ctx, r *hx.Rng) {
 					break
 				}
 			}
-			// frame: every other device byte (the scratch inode table block aside) is still zero
+			// splice + frame: the device held a pattern; afterwards the buffer sits where the extent list maps
+			// [off, off+n), the gap between the old end of file and off is zero (when the tree zero-fills), and
+			// every other device byte (the scratch inode table block aside) is what it was
 			if !bad {
 				img := d.Bytes(0, int(devSize))
+				want := append([]byte(nil), wfill...)
+				if !asFoundStale {
+					for q := size; q < off; q++ {
+						if pos, ok := mapByte(es, bs, q); ok {
+							want[pos] = 0
+						}
+					}
+				}
 				for i := 0; i < nbytes; i++ {
 					pos, _ := mapByte(es, bs, off+int64(i))
-					if img[pos] != data[i] {
-						c.Fail(id, "-", fmt.Sprintf("byte %d of the write is not at the mapped device offset %d", i, pos), desc)
+					want[pos] = data[i]
+				}
+				for p := int64(0); p < devSize; p++ {
+					if img[p] != want[p] && (p < int64(itb)*bs || p >= int64(itb+1)*bs) {
+						c.Fail(id, "-", fmt.Sprintf("after File.Write device byte %d is %#x, want %#x (splice of the buffer at the mapped offsets, zero gap, nothing else)", p, img[p], want[p]), desc)
 						bad = true
 						break
-					}
-					img[pos] = 0
-				}
-				for p := int64(0); !bad && p < devSize; p++ {
-					if img[p] != 0 && (p < int64(itb)*bs || p >= int64(itb+1)*bs) {
-						c.Fail(id, "-", fmt.Sprintf("File.Write changed device byte %d, which the write does not map to", p), desc)
-						bad = true
 					}
 				}
 			}
